@@ -105,7 +105,7 @@ def _css_chunk(vecs):
     npos = 0
     for v in vecs:
         doc = v['doc']
-        flags = {'semicolon_in_parentheses': bool(v['f16'])}
+        flags = {'semicolon_in_parentheses': bool(v['f16']) and 'f(c;d)' in v['doc'], 'brace_in_parentheses': bool(v['f16']) and '- #{$x})' in v['doc']}
         case0 = {'doc': doc, 'flags': flags}
         if not v['f16']:
             alt = _with_name_only_item(v)
